@@ -289,6 +289,31 @@ func (cp *compiler) compile(fn *ssa.Function) *sFunc {
 			case *ssa.DebugRef:
 				continue
 			case *ssa.BinOp:
+				// a buffer parameter compared with nil (defensive checks in front of the rounds): the executor always passes
+				// the four buffers, so the comparison is the constant "pointer (1) against nil (0)"
+				if ins.Op == token.EQL || ins.Op == token.NEQ {
+					isNil := func(v ssa.Value) bool {
+						c, ok := v.(*ssa.Const)
+						if !ok || c.Value != nil {
+							return false
+						}
+						_, isPtr := c.Type().Underlying().(*types.Pointer)
+						return isPtr
+					}
+					isBuf := func(v ssa.Value) bool {
+						p, ok := v.(*ssa.Parameter)
+						if !ok {
+							return false
+						}
+						_, isPtr := p.Type().Underlying().(*types.Pointer)
+						return isPtr
+					}
+					if (isNil(ins.Y) && isBuf(ins.X)) || (isNil(ins.X) && isBuf(ins.Y)) {
+						si.op, si.tok = sCmp, ins.Op
+						si.x, si.y = sVal{slot: -1, c: Ctl(1)}, sVal{slot: -1, c: Ctl(0)}
+						break
+					}
+				}
 				x, okx := val(ins.X)
 				y, oky := val(ins.Y)
 				okT, signed := cp.is64(ins.X.Type())
